@@ -325,7 +325,19 @@ func (p Plugin) getNodeResourceInfo(ctx context.Context, nodename string, worklo
 		}
 	}
 
+	// compare every NUMA node known to the capacity, the recorded usage or the workloads:
+	// usage under an id that is missing from the capacity is never validated, so it can only be noticed here
+	numaNodeIDs := map[string]struct{}{}
 	for numaNodeID := range nodeResourceInfo.Capacity.NUMAMemory {
+		numaNodeIDs[numaNodeID] = struct{}{}
+	}
+	for numaNodeID := range nodeResourceInfo.Usage.NUMAMemory {
+		numaNodeIDs[numaNodeID] = struct{}{}
+	}
+	for numaNodeID := range actuallyWorkloadsUsage.NUMAMemory {
+		numaNodeIDs[numaNodeID] = struct{}{}
+	}
+	for numaNodeID := range numaNodeIDs {
 		if actuallyWorkloadsUsage.NUMAMemory[numaNodeID] != nodeResourceInfo.Usage.NUMAMemory[numaNodeID] {
 			diffs = append(diffs, fmt.Sprintf("node.NUMAMemory[%+v] != sum(workload.NUMAMemory[%+v]: %+v != %+v)", numaNodeID, numaNodeID, nodeResourceInfo.Usage.NUMAMemory[numaNodeID], actuallyWorkloadsUsage.NUMAMemory[numaNodeID]))
 		}
